@@ -84,6 +84,7 @@ pub struct RsDec(pub ReedSolomonDecoder);
 
 impl Enc for RsEnc {
     fn mk(k: usize, r: usize, sb: usize) -> Result<Self, Error> {
+        crate::c10::setup_default_engine();
         ReedSolomonEncoder::new(k, r, sb).map(RsEnc)
     }
     fn add(&mut self, shard: &[u8]) -> Result<(), Error> {
@@ -102,6 +103,7 @@ impl Enc for RsEnc {
 }
 impl Dec for RsDec {
     fn mk(k: usize, r: usize, sb: usize) -> Result<Self, Error> {
+        crate::c10::setup_default_engine();
         ReedSolomonDecoder::new(k, r, sb).map(RsDec)
     }
     fn add_o(&mut self, i: usize, shard: &[u8]) -> Result<(), Error> {
